@@ -22,17 +22,22 @@ def _check_effect_family(args):
     rng = random.Random((seed * 40503 + hash(repr(case["terms"])) + (5 if case["icpt"] else 0) + hash(gshape) + hash(render) + hash(atoms)) & 0xFFFFFFFF)
     terms = [list(t) for t in case["terms"]]
     eff_factors = sorted({f for t in terms for f in t})
-    gvars = {"g": ["g"], "g:k": ["g", "k"], "C(g)": ["g"]}[gshape]
-    factors = sorted(set(eff_factors) | set(gvars))
+    # grouping expression -> the grouping factors it stands for: (e | g + k) = (e|g) + (e|k), (e | g/k) = (e|g) + (e|g:k)
+    gfactors = {"g": [["g"]], "g:k": [["g", "k"]], "C(g)": [["g"]], "g + k": [["g"], ["k"]], "g/k": [["g"], ["g", "k"]]}[gshape]
+    gall = sorted({v for gv in gfactors for v in gv})
+    factors = sorted(set(eff_factors) | set(gall))
     numeric_parts = {tuple(sorted(f for f in t if f not in c03.CAT)) for t in terms}
     wr = {"x": "bs(x, df=3)"} if atoms == "spline" else {}
     xw = 3 if atoms == "spline" else 1
     total_w = sum(xw for part in numeric_parts if part)
     df, nlev = c03.make_data(rng, factors, total_w)
-    gtxt = {"g": "g", "g:k": "g:k", "C(g)": "C(g)"}[gshape]
+    gtxt = gshape
     tt = [":".join(wr.get(f, f) for f in t) for t in terms]
     if render == "joint":
         text = "y ~ (" + ("" if case["icpt"] else "0 + ") + " + ".join(tt) + f" | {gtxt})"
+    elif render == "implicit":
+        # the group intercept is left implicit: (e | g) means (1 + e | g)
+        text = "y ~ (" + " + ".join(tt) + f" | {gtxt})"
     else:
         # the same family written as separate group terms, in random order (the group intercept need not come first)
         parts = [f"(0 + {t} | {gtxt})" for t in tt] + ([f"(1 | {gtxt})"] if case["icpt"] else [])
@@ -43,61 +48,67 @@ def _check_effect_family(args):
     kf = {"effect_family_exact_under_simple_rule": bool(case.get("simple_rule_exact"))}
     if st != "ok":
         return ({"clause": "exception_on_buildable_effect_family", "exc": type(dm).__name__, **kf}, dict(base, error=str(dm)[:160])), "exc"
-    x = np.asarray(dm.group.design_matrix)
+    xall = np.asarray(dm.group.design_matrix)
     nlabels = sum(len(t.labels) for t in dm.group.terms.values())
-    base.update(ncol=int(x.shape[1]), nlabels=int(nlabels))
-    if nlabels != x.shape[1]:
+    base.update(ncol=int(xall.shape[1]), nlabels=int(nlabels))
+    if nlabels != xall.shape[1]:
         return ({"clause": "labels_and_columns_differ_in_number", **kf}, base), "bad"
-    cells = sorted(set(zip(*[df[v] for v in gvars])))
-    gidx = [cells.index(tuple(df[v].iloc[r] for v in gvars)) for r in range(len(df))]
-    # block structure of every term: a row is non-zero only in the slots of its own group, the blocks tile the matrix
     covered = 0
-    for name, sl in dm.group.slices.items():
-        z = np.asarray(dm.group[name], dtype=float)
-        covered += z.shape[1]
-        if z.shape[1] % len(cells) != 0:
-            return ({"clause": "term_block_is_not_groups_times_effect_columns", **kf}, dict(base, term=name, width=int(z.shape[1]), groups=len(cells))), "bad"
-        wd = z.shape[1] // len(cells)
-        for r in range(len(df)):
-            row = z[r].copy()
-            row[gidx[r] * wd : (gidx[r] + 1) * wd] = 0
-            if np.any(row != 0):
-                return ({"clause": "row_non_zero_outside_its_group", **kf}, dict(base, term=name, row=r)), "bad"
-    if covered != x.shape[1]:
+    claimed = set()
+    for gvars in gfactors:
+        cells = sorted(set(zip(*[df[v] for v in gvars])))
+        gidx = [cells.index(tuple(df[v].iloc[r] for v in gvars)) for r in range(len(df))]
+        mine = [name for name, tm in dm.group.terms.items() if set(tm.factor.var_names) == set(gvars)]
+        claimed.update(mine)
+        base = dict(base, grouping_factor=":".join(gvars), terms_of_factor=list(mine))
+        # block structure of every term: a row is non-zero only in the slots of its own group, the blocks tile the matrix
+        for name in mine:
+            z = np.asarray(dm.group[name], dtype=float)
+            covered += z.shape[1]
+            if z.shape[1] % len(cells) != 0:
+                return ({"clause": "term_block_is_not_groups_times_effect_columns", **kf}, dict(base, term=name, width=int(z.shape[1]), groups=len(cells))), "bad"
+            wd = z.shape[1] // len(cells)
+            for r in range(len(df)):
+                row = z[r].copy()
+                row[gidx[r] * wd : (gidx[r] + 1) * wd] = 0
+                if np.any(row != 0):
+                    return ({"clause": "row_non_zero_outside_its_group", **kf}, dict(base, term=name, row=r)), "bad"
+        x = np.column_stack([np.asarray(dm.group[name]) for name in mine]) if mine else np.zeros((len(df), 0))
+        numcols = {v: np.asarray(df[v], dtype=np.int64).reshape(-1, 1) for v in ("x", "z")}
+        if atoms == "spline" and any("x" in t for t in terms):
+            val = None
+            for tm in dm.group.terms.values():
+                for c in getattr(tm.expr, "components", []):
+                    if str(c.name) == wr["x"]:
+                        val = np.asarray(c.value, dtype=float).reshape(len(df), -1)
+            if val is None:
+                return None, "skip"
+            numcols["x"] = val
+        gi = np.array([[1 if gidx[r] == c else 0 for c in range(len(cells))] for r in range(len(df))], dtype=np.int64)
+        want = len(cells) * c03.dim_of(case["atoms"], nlev, {"x": xw, "z": 1})
+        if rank.is_int_matrix(x) and atoms != "spline":
+            xi = np.round(x).astype(np.int64)
+            b_eff = c03.indicator_basis(df, terms, case["icpt"], nlev, numcols)
+            b = np.einsum("ij,ik->ijk", gi, b_eff).reshape(len(df), -1)
+            rx, rb = rank.rank_int(xi), rank.rank_int(b)
+            rxb = rank.rank_int(np.column_stack([xi, b]))
+        else:
+            b_eff = c03.indicator_basis(df, terms, case["icpt"], nlev, {v: np.asarray(c, dtype=float) for v, c in numcols.items()}).astype(float)
+            b = np.einsum("ij,ik->ijk", gi.astype(float), b_eff).reshape(len(df), -1)
+            rx, c1 = rank.rank_float(x)
+            rb, c2 = rank.rank_float(b)
+            rxb, c3 = rank.rank_float(np.column_stack([x, b]))
+            if not (c1 and c2 and c3):
+                return None, "skip"
+        base.update(rank=int(rx), rank_basis=int(rb), rank_joint=int(rxb), dim_abs=int(want))
+        if rb != want:
+            return ({"clause": "HARNESS_atom_dimension_mismatch"}, base), "harness"
+        if rx != x.shape[1]:
+            return ({"clause": "group_columns_linearly_dependent", **kf}, base), "bad"
+        if rxb != rb or rx != rb:
+            return ({"clause": "group_columns_do_not_span_group_by_cell_means", **kf}, base), "bad"
+    if covered != xall.shape[1] or claimed != set(dm.group.terms):
         return ({"clause": "term_blocks_do_not_tile_group_matrix", **kf}, dict(base, covered=int(covered))), "bad"
-    numcols = {v: np.asarray(df[v], dtype=np.int64).reshape(-1, 1) for v in ("x", "z")}
-    if atoms == "spline" and any("x" in t for t in terms):
-        val = None
-        for tm in dm.group.terms.values():
-            for c in getattr(tm.expr, "components", []):
-                if str(c.name) == wr["x"]:
-                    val = np.asarray(c.value, dtype=float).reshape(len(df), -1)
-        if val is None:
-            return None, "skip"
-        numcols["x"] = val
-    gi = np.array([[1 if gidx[r] == c else 0 for c in range(len(cells))] for r in range(len(df))], dtype=np.int64)
-    want = len(cells) * c03.dim_of(case["atoms"], nlev, {"x": xw, "z": 1})
-    if rank.is_int_matrix(x) and atoms != "spline":
-        xi = np.round(x).astype(np.int64)
-        b_eff = c03.indicator_basis(df, terms, case["icpt"], nlev, numcols)
-        b = np.einsum("ij,ik->ijk", gi, b_eff).reshape(len(df), -1)
-        rx, rb = rank.rank_int(xi), rank.rank_int(b)
-        rxb = rank.rank_int(np.column_stack([xi, b]))
-    else:
-        b_eff = c03.indicator_basis(df, terms, case["icpt"], nlev, {v: np.asarray(c, dtype=float) for v, c in numcols.items()}).astype(float)
-        b = np.einsum("ij,ik->ijk", gi.astype(float), b_eff).reshape(len(df), -1)
-        rx, c1 = rank.rank_float(x)
-        rb, c2 = rank.rank_float(b)
-        rxb, c3 = rank.rank_float(np.column_stack([x, b]))
-        if not (c1 and c2 and c3):
-            return None, "skip"
-    base.update(rank=int(rx), rank_basis=int(rb), rank_joint=int(rxb), dim_abs=int(want))
-    if rb != want:
-        return ({"clause": "HARNESS_atom_dimension_mismatch"}, base), "harness"
-    if rx != x.shape[1]:
-        return ({"clause": "group_columns_linearly_dependent", **kf}, base), "bad"
-    if rxb != rb or rx != rb:
-        return ({"clause": "group_columns_do_not_span_group_by_cell_means", **kf}, base), "bad"
     return None, "ok"
 
 
@@ -111,6 +122,10 @@ def effect_families(rep, seed, sample, gshapes):
     jobs = [(c, seed, g, "joint", "plain") for c in cases for g in gshapes]
     jobs += [(c, seed, "g", "split", "plain") for c in cases]
     jobs += [(c, seed, "g", "joint", "spline") for c in cases if any("x" in t for t in c["terms"])]
+    # grouping expressions that distribute over several factors, and effects whose group intercept is implicit
+    nog = [c for c in cases if all(f != "k" for t in c["terms"] for f in t)]
+    jobs += [(c, seed, g, rd, "plain") for c in nog for g in ("g + k", "g/k") for rd in (["joint", "implicit"] if c["icpt"] else ["joint"])]
+    jobs += [(c, seed, "g", "implicit", "plain") for c in cases if c["icpt"]]
     results = common.pool_map(_check_effect_family, jobs)
     for (c, _, g, rd, at), (prob, kind) in zip(jobs, results):
         rep.cov["evaluations"] += 1
